@@ -80,6 +80,40 @@ def run_scenario(sc):
     return t
 
 
+def run_specimen(sc):
+    """one of the 12 real specimens of the repository's test data: real input TPF + real Pretext AGP through the real parsers and BuildAssembly"""
+    import glob
+    import math
+    from tola.assembly.build_assembly import BuildAssembly
+    from tola.assembly.gap import Gap
+    from tola.assembly.indexed_assembly import IndexedAssembly
+    from tola.assembly.parser import parse_agp, parse_tpf
+    d = str(C.REPO / "tests" / "data" / sc["specimen"])
+    t = {"tid": sc["tid"], "cls": "specimen", "tn": 1, "td": 1, "naming": "free", "valid": 0, "input": [], "map": [], "haps": [], "style": "specimen",
+         "status": "ok", "out": [], "stats": {"cuts": 0, "breaks": 0, "joins": 0}, "msg": sc["specimen"]}
+
+    def go(_):
+        asm = parse_tpf(open(glob.glob(d + "/*-input*.tpf")[0]), "in")
+        ptx = parse_agp(open(glob.glob(d + "/*-pretext*.agp")[0]), "ptx")
+        ba = BuildAssembly("o", default_gap=Gap(200, "scaffold"))
+        ba.remap_to_input_assembly(ptx, IndexedAssembly.new_from_assembly(asm))
+        return asm, ptx, ba.assemblies_with_scaffolds_fused(), ba.assembly_stats
+    r = C.guarded(go, None, 300.0)
+    if r[0] != "ok":
+        t["status"] = "hang" if r[0] == "hang" else "exc:" + r[1]
+        return t
+    asm, ptx, out, st = r[1]
+    t["tn"] = int(math.floor(ptx.bp_per_texel))
+    t["input"] = [{"name": s.name, "rows": [prow(x) for x in s.rows]} for s in asm.scaffolds]
+    t["haps"] = ["" for _ in t["input"]]
+    for key, a in out.items():
+        for s in a.scaffolds:
+            t["out"].append({"asm": key or "", "asm_lc": (key or "").lower(), "name": s.name, "rank": s.rank or 0, "tag": s.tag or "", "hap": s.haplotype or "",
+                             "orig": s.original_name or "", "rows": [prow(x) for x in s.rows]})
+    t["stats"] = {"cuts": st.cuts, "breaks": st.breaks, "joins": st.joins}
+    return t
+
+
 def pv_cfg(tn, td, mode, maxedits, nrandom, maxperturb=0, maxpieces=4, emit=True, inv=True, style="plain"):
     t = (f'SPECIFICATION Spec\nCONSTANTS TN = {tn} TD = {td} MinTex = 2 MaxEdits = {maxedits} MaxPieces = {maxpieces} NRandom = {nrandom} '
          f'Mode = "{mode}" MaxPerturb = {maxperturb} NameStyle = "{style}"\nVIEW View\nCHECK_DEADLOCK FALSE\n')
